@@ -142,6 +142,23 @@ class HierCase(object):
         _, psi = self.h.split(z, self.cov)
         return np.real(psi)
 
+    def sampling_posterior(self):
+        """posterior whose prior keeps every population parameter inside the
+        support (scales positive, small covariate effects): used wherever
+        initial points / prior draws are sampled"""
+        desc = self.h.describe()[self.h.n_bottom:]
+        priors = []
+        for (level, _, li, loc), free in zip(desc, self.free_top):
+            if not free:
+                continue
+            leaf = self.leaves[li]
+            if loc >= leaf.n_base(self.n_ids):
+                priors.append(pints.GaussianLogPrior(0.0, 0.02))
+            else:
+                priors.append(pints.LogNormalLogPrior(np.log(0.4), 0.2))
+        return chi.HierarchicalLogPosterior(
+            self.hl, pints.ComposedLogPrior(*priors))
+
     # ---------------------------------------------------------------- misc
     def tap_psis(self):
         """last mechanistic parameter vector every individual's model saw"""
